@@ -6,8 +6,8 @@ Monitors
     judged by an independent reference (refmodel.overlap_mean + a quadrature loop) computed from the
     arguments only -- never from the binner's private state.
   * tap on SimpleBinner.bindown (plain mean of the native points between target mid-points),
-    NativeBinner.bindown (arguments returned unchanged) and Binner.bin_model (delegates to
-    bindown(model_output[0], model_output[1]) and returns its result).
+    NativeBinner.bindown (arguments returned unchanged); bin_model of every binner judged by value
+    (equals bindown(model_output[0], model_output[1]) of a fresh binner of the same declaration).
   * workload-level metamorphic relations: constant -> constant, linearity, invariance under permutation
     of native rows (values, widths, errors permuted together) and of target rows (compared as a map
     centre -> value).
@@ -781,7 +781,7 @@ def wl_simple(ctx, rng):
 
 
 def wl_native(ctx, rng):
-    """NativeBinner hands its arguments back; bin_model of every binner delegates to bindown(wn, spectrum)."""
+    """NativeBinner hands its arguments back; bin_model of every binner gives what bindown(wn, spectrum) gives."""
     from taurex.binning import FluxBinner, SimpleBinner, NativeBinner
     c, w, nk = gen_native(rng)
     n = len(c)
